@@ -188,8 +188,33 @@ def rule_consts(ctx):
             okt = kw.get("dtype") in ("np.dtype('>i2')", "'>i2'") and [norm(a_) for a_ in shp] == ["SRTM30._tile_height", "SRTM30._tile_width"]
     ctx.ob("SRTM30.get_tile.read", okt, "%s" % (norm(parent(parent(ff[0])))[:110] if ff else None), "np.fromfile(..., dtype='>i2').reshape(_tile_height, _tile_width)", node=ff[0] if ff else g.node, func=g)
     b = ctx.func(TOPO, "SRTM30.get_bounds")
-    okb = [norm(s).replace(" ", "") for s in b.body][-2:] == ["_,lat_min,lon_min,lat_max,lon_max=tile", "return(lat_min,lon_min,lat_max,lon_max)"]
-    ctx.ob("SRTM30.get_bounds", okb, "%s" % [norm(s) for s in b.body][-2:], "the row's four bounds in table order", node=b.node, func=b)
+    # the row of the table whose name matches, without its name: elements 1..4 in table order (spelled as an unpacking, as subscripts or as a slice)
+    bflow = Flow(b)
+    brets = [r_ for r_ in walk_no_nested(b.node) if isinstance(r_, ast.Return) and r_.value is not None]
+    if len(brets) != 1:
+        raise AnalysisError("get_bounds: not one return")
+    bv = bflow.resolve(brets[0].value, at=brets[0], depth=4)
+    if isinstance(bv, ast.Call) and norm(bv.func) == "tuple" and len(bv.args) == 1:
+        bv = bv.args[0]
+    row_txt = None
+    if isinstance(bv, ast.Tuple) and len(bv.elts) == 4 and all(isinstance(e_, ast.Subscript) and isinstance(e_.slice, ast.Constant) for e_ in bv.elts) \
+            and len({norm(e_.value) for e_ in bv.elts}) == 1:
+        idx = [e_.slice.value for e_ in bv.elts]
+        row_txt = str(norm(bv.elts[0].value))
+    elif isinstance(bv, ast.Subscript) and isinstance(bv.slice, ast.Slice) and bv.slice.step is None:
+        lo_ = bv.slice.lower.value if isinstance(bv.slice.lower, ast.Constant) else None
+        hi_ = bv.slice.upper.value if isinstance(bv.slice.upper, ast.Constant) else (5 if bv.slice.upper is None else None)
+        if lo_ is None or hi_ is None:
+            raise AnalysisError("get_bounds: slice %s of the row not understood" % norm(bv.slice))
+        idx = list(range(lo_, hi_))
+        row_txt = str(norm(bv.value))
+    else:
+        raise AnalysisError("get_bounds: the returned value %s is not four elements of the matching row" % str(norm(bv))[:80])
+    okrow = row_txt.replace(" ", "") in ("[tfortinSRTM30._tilesift[0]==name][0]", "[tfortinSRTM30._tilesifname==t[0]][0]", "next((tfortinSRTM30._tilesift[0]==name))")
+    if not okrow and "_tiles" not in row_txt:
+        raise AnalysisError("get_bounds: the row %s does not come from the tile table" % row_txt[:80])
+    okb = idx == [1, 2, 3, 4] and okrow
+    ctx.ob("SRTM30.get_bounds", okb, "elements %s of %s" % (idx, row_txt[:80]), "the four bounds of the row whose name matches, in table order", node=b.node, func=b)
 
 
 def rule_cache(ctx):
@@ -260,6 +285,16 @@ def rule_cache(ctx):
            node=g if isinstance(g, ast.If) else dl[0], func=f)
     flow = Flow(f)
     ok2 = flow._order(enclosing_stmt(ff[0])) > flow._order(enclosing_stmt(dl[0])) and not guard_chain(enclosing_stmt(ff[0]), implicit=True)
+    if not ok2 and len(ff) > 1:
+        # cache hit returned first (`if exists: return read`), then download and read: every read in front of the download stands under
+        # `exists(<its file>)`, and one read follows the download under no further condition of its own
+        before = [c_ for c_ in ff if flow._order(enclosing_stmt(c_)) < flow._order(enclosing_stmt(dl[0]))]
+        after = [c_ for c_ in ff if flow._order(enclosing_stmt(c_)) > flow._order(enclosing_stmt(dl[0]))]
+        hit_ok = all(any(str(norm(t_)) == "os.path.exists(%s)" % norm(c_.args[0]) and p_ for t_, p_ in guard_chain(enclosing_stmt(c_))) for c_ in before)
+        same_file = len({str(norm(c_.args[0])) for c_ in ff}) == 1
+        ok2 = bool(after) and hit_ok and same_file and any(not guard_chain(enclosing_stmt(c_)) or
+                                                             [str(norm(t_)) for t_, _p in guard_chain(enclosing_stmt(c_))] == [str(norm(t_)) for t_, _p in guard_chain(enclosing_stmt(dl[0]))]
+                                                             for c_ in after)
     ctx.ob("SRTM30.get_tile.order", ok2 and norm(dl[0].args[0]) == f.params[0], "read of %s after the guard: %s" % (P, ok2), "the read follows the (possible) download of the same tile", node=ff[0], func=f)
 
 
